@@ -284,10 +284,76 @@ def gen_requests(args, out_path):
         raise RuntimeError(f"tvdriver gen {args} failed: {p.stderr[-500:]}")
 
 
-def serve(binary, req_path, out_path, timeout=3600, extra_args=()):
-    with open(req_path) as fin, open(out_path, "w") as fout:
-        p = subprocess.run([binary, "serve"] + list(extra_args), stdin=fin, stdout=fout, stderr=subprocess.PIPE, text=True, timeout=timeout, env=ENV)
-    return p.returncode, p.stderr
+def serve(binary, req_path, out_path, timeout=6 * 3600, extra_args=(), workers=None):
+    """Answers every request line of `req_path` with `binary serve`, one answer line per request, into
+    `out_path`. Request lines are independent of each other (every line carries its own state), so a long
+    stream is dealt round-robin to several processes and the answers are put back in request order. A process
+    that dies or is stopped leaves the requests it did not answer marked `crash` (as a single process would
+    for the tail of its input)."""
+    with open(req_path) as f:
+        lines = [l for l in f.read().split("\n")]
+    while lines and lines[-1] == "":
+        lines.pop()
+    n = len(lines)
+    if workers is None:
+        workers = 1 if n < 4 else min(14, max(1, n // 2))
+    if workers <= 1:
+        with open(req_path) as fin, open(out_path, "w") as fout:
+            try:
+                p = subprocess.run([binary, "serve"] + list(extra_args), stdin=fin, stdout=fout,
+                                   stderr=subprocess.PIPE, text=True, timeout=timeout, env=ENV)
+                return p.returncode, p.stderr
+            except subprocess.TimeoutExpired:
+                return 124, "timeout"
+    parts = [[] for _ in range(workers)]
+    for k, l in enumerate(lines):
+        parts[k % workers].append(l)
+    procs = []
+    base = out_path + ".part"
+    for w in range(workers):
+        rp, op = f"{base}{w}.req", f"{base}{w}.out"
+        with open(rp, "w") as f:
+            f.write("\n".join(parts[w]) + "\n")
+        fin, fout = open(rp), open(op, "w")
+        procs.append((subprocess.Popen([binary, "serve"] + list(extra_args), stdin=fin, stdout=fout,
+                                       stderr=subprocess.PIPE, text=True, env=ENV), fin, fout, op))
+    rc, errs = 0, []
+    deadline = time.time() + timeout
+    answers = []
+    for (p, fin, fout, op) in procs:
+        try:
+            _, err = p.communicate(timeout=max(1, deadline - time.time()))
+        except subprocess.TimeoutExpired:
+            p.kill()
+            _, err = p.communicate()
+            err = (err or "") + " timeout"
+        fin.close(); fout.close()
+        if p.returncode != 0:
+            rc = p.returncode
+            errs.append((err or "")[-300:])
+        with open(op, encoding="utf-8", errors="replace") as f:
+            got = f.read().split("\n")
+        if got and got[-1] == "":
+            got.pop()
+        answers.append(got)
+    out = []
+    for k in range(n):
+        w, j = k % workers, k // workers
+        a = answers[w]
+        # the last line a dead process wrote may be cut short: believe it only if more follows or the process ended well
+        if j < len(a) and (j < len(a) - 1 or procs[w][0].returncode == 0):
+            out.append(a[j])
+        else:
+            out.append("crash")
+    with open(out_path, "w") as f:
+        f.write("\n".join(out) + ("\n" if out else ""))
+    for w in range(workers):
+        for suffix in (".req", ".out"):
+            try:
+                os.remove(f"{base}{w}{suffix}")
+            except OSError:
+                pass
+    return rc, " | ".join(errs)
 
 
 def read_lines(path):
@@ -308,7 +374,7 @@ def run_stream(pid, name, req_path, harness_bin):
     rows = []
     for k, r in enumerate(reqs):
         a = impl[k] if k < len(impl) and (impl[k] or k < len(impl) - 1) else "crash"
-        if k < len(mod) and mod[k]:
+        if k < len(mod) and mod[k] and mod[k] != "crash":
             parts = mod[k].split("\t")
             m = parts[0]
             s = parts[1] if len(parts) > 1 else "-"
